@@ -36,7 +36,7 @@ class C06(Spec):
                 "Nun.C06_incremental_roundtrip", "Nun.snapFold_inc", "Nun.loadLoop_recs", "Nun.pwrite_record",
                 "Nun.C06_snapshot_restores_after_any_history", "Nun.C06_history_inv", "Nun.C06_reclaim_inv", "Nun.restart_inv", "Nun.J_fresh", "Nun.load_clean"]
     rule = ("all sequences of length L over {set (values of 0, 1, 6 multi-byte and 300 bytes), set-safe, remove, increment, snapshot false, snapshot true, restart} x keys, "
-            "plus version conflicts on new and on persisted keys of an ARBITER database (with and without the arbiter's answer) followed by snapshots of both kinds and a restart, plus every sequence of length 6 (7) over {set, increment, remove, incremental snapshot} on ONE key followed by snapshot + restart, plus seeded random sequences up to length 40 over 3 keys and 2 databases; the snapshot files are compared byte for byte with the Lean model after every snapshot and the reloaded dataset with the model's loader; "
+            "plus three databases queued for ONE write round (one request naming several, several requests before the round, same / different reclaim flags, a name twice) before and after further changes, plus version conflicts on new and on persisted keys of an ARBITER database (with and without the arbiter's answer) followed by snapshots of both kinds and a restart, plus every sequence of length 6 (7) over {set, increment, remove, incremental snapshot} on ONE key followed by snapshot + restart, plus seeded random sequences up to length 40 over 3 keys and 2 databases; the snapshot files are compared byte for byte with the Lean model after every snapshot and the reloaded dataset with the model's loader; "
             "oracle: dataset captured at each completed snapshot vs the dataset after the next restart. non-trivial = at least one snapshot that writes something and one restart; distinct by trace hash")
 
     def corpus(self):
@@ -86,6 +86,19 @@ class C06(Spec):
             for mid in ([], ["C 1 snapshot false", "SNAP"], ["C 1 set bb 23"]):
                 for fin in (["C 1 snapshot false", "SNAP"], ["C 1 snapshot true", "SNAP"]):
                     cases.append(ARB + cf + mid + fin + ["RESTART"] + AFTER + ["C 1 get-safe a", "C 1 get-safe nw", "C 1 keys"])
+        # several databases queued for ONE write round (one request naming both, or two requests before the round runs; same and different
+        # reclaim flags; a database named twice): every queued database must be written
+        TWO = ["RESET", "SESS 1", "C 1 auth adm pw", "C 1 create-db t tok newer", "C 1 create-db u tok2 newer", "C 1 create-db w tok3", "C 1 use-db t tok", "C 1 set a 1", "C 1 set bb 22",
+               "C 1 use-db u tok2", "C 1 set a u1", "C 1 set c u3", "C 1 use-db w tok3", "C 1 set z w1"]
+        rounds = [["C 1 snapshot false t|u"], ["C 1 snapshot true t|u"], ["C 1 snapshot false t|u|w"], ["C 1 snapshot false u|t"], ["C 1 snapshot false t", "C 1 snapshot false u"],
+                  ["C 1 snapshot false t", "C 1 snapshot true u"], ["C 1 snapshot true t", "C 1 snapshot false u", "C 1 snapshot false w"], ["C 1 snapshot false t|t|u"],
+                  ["C 1 snapshot false t", "C 1 snapshot false t", "C 1 snapshot false u"], ["C 1 snapshot false w|u", "C 1 snapshot false t"]]
+        more = ["C 1 use-db t tok", "C 1 set a 2", "C 1 remove bb", "C 1 set nk n", "C 1 use-db u tok2", "C 1 set a u2", "C 1 remove c", "C 1 increment cnt", "C 1 use-db w tok3", "C 1 set z w2"]
+        reads = ["SESS 1", "C 1 auth adm pw", "C 1 use-db t tok", "C 1 keys", "C 1 get-safe a", "C 1 use-db u tok2", "C 1 keys", "C 1 get-safe a", "C 1 use-db w tok3", "C 1 get-safe z"]
+        for r1 in rounds:
+            cases.append(TWO + r1 + ["SNAP", "RESTART"] + reads)
+            for r2 in rounds[:6]:
+                cases.append(TWO + r1 + ["SNAP"] + more + r2 + ["SNAP", "RESTART"] + reads)
         rng = core.XorShift(seed)
         al2 = alphabet(("a", "bb", "c"))
         for _ in range(500 if tier == "quick" else 8000):
